@@ -15,6 +15,7 @@ import (
 )
 
 type Clause struct {
+	Assumed bool // requires-assumed: not checked at call sites
 	Props []string
 	Text  string
 	Expr  ast.Expr
@@ -23,6 +24,7 @@ type Clause struct {
 }
 
 type AtClause struct {
+	Site    int // 0: every site of Callee; N: only its N-th call site
 	Callee  string
 	Binders []string
 	Props   []string
@@ -46,6 +48,7 @@ type FuncContract struct {
 	BindCalls map[string][]string // callee name -> names for the results of its first call site
 	Lets     []LetClause
 	SafetyProps []string
+	CloseChan   bool
 	FrameProps []string
 	Writes   *WritesClause
 	OMWrites *OMWritesClause
@@ -171,7 +174,7 @@ func splitNames(s string) []string {
 }
 
 var funcHdrRe = regexp.MustCompile(`^func\s+([A-Za-z0-9_.$]+)\s*\(([^)]*)\)\s*(?:\(([^)]*)\))?\s*$`)
-var atRe = regexp.MustCompile(`^at\s+([A-Za-z0-9_.$]+)\s*\(([^)]*)\)\s*(\[[A-Z0-9, ]+\])?\s*:\s*(.*)$`)
+var atRe = regexp.MustCompile(`^at\s+([A-Za-z0-9_.$#]+)\s*\(([^)]*)\)\s*(\[[A-Z0-9, ]+\])?\s*:\s*(.*)$`)
 var loopRe = regexp.MustCompile(`^(noexit|invariant|bind)\s+loop\s+(\d+)\s*(.*)$`)
 var bindCallRe = regexp.MustCompile(`^bind\s+call\s+([A-Za-z0-9_.$]+)\s*:\s*(.*)$`)
 
@@ -392,7 +395,7 @@ func parseContractFile(path, pkgPath string, preds map[string]*Pred) ([]*FuncCon
 			word, rest = t[:i], strings.TrimSpace(t[i+1:])
 		}
 		switch word {
-		case "requires", "ensures", "tags":
+		case "requires", "requires-assumed", "ensures", "tags":
 			props, body := parseProps(rest)
 			ex, err := parseExprText(body)
 			if err != nil {
@@ -402,6 +405,10 @@ func parseContractFile(path, pkgPath string, preds map[string]*Pred) ([]*FuncCon
 			switch word {
 			case "requires":
 				cur.Requires = append(cur.Requires, c)
+			case "requires-assumed":
+				// a data-structure invariant the body relies on: assumed on entry, NOT checked at call sites, reported as an assumption
+				c.Assumed = true
+				cur.Requires = append(cur.Requires, c)
 			case "ensures":
 				cur.Ensures = append(cur.Ensures, c)
 			default:
@@ -409,7 +416,14 @@ func parseContractFile(path, pkgPath string, preds map[string]*Pred) ([]*FuncCon
 				cur.Tags = append(cur.Tags, c)
 			}
 		case "safety":
-			cur.SafetyProps = append(cur.SafetyProps, strings.Fields(strings.ReplaceAll(rest, ",", " "))...)
+			for _, w := range strings.Fields(strings.ReplaceAll(rest, ",", " ")) {
+				if w == "closechan" {
+					// opt-in: close(ch) must be proved to act on a non-nil channel that is still open
+					cur.CloseChan = true
+					continue
+				}
+				cur.SafetyProps = append(cur.SafetyProps, w)
+			}
 		case "writes", "writes-assumed":
 			props, body := parseProps(rest)
 			wc := &WritesClause{Props: props, Text: body, Assumed: word == "writes-assumed"}
@@ -508,7 +522,16 @@ func parseContractFile(path, pkgPath string, preds map[string]*Pred) ([]*FuncCon
 			if err != nil {
 				return nil, fail(l, "parse: %v", err)
 			}
-			cur.Ats = append(cur.Ats, AtClause{Callee: m[1], Binders: splitNames(m[2]), Props: props, Text: m[4], Expr: ex, Line: l.no})
+			callee, siteSel := m[1], 0
+			if i := strings.LastIndex(callee, "#"); i >= 0 {
+				// Callee#N: the clause applies to the N-th call site of Callee only (in control-flow order)
+				siteSel, err = strconv.Atoi(callee[i+1:])
+				if err != nil {
+					return nil, fail(l, "at: bad site selector")
+				}
+				callee = callee[:i]
+			}
+			cur.Ats = append(cur.Ats, AtClause{Callee: callee, Site: siteSel, Binders: splitNames(m[2]), Props: props, Text: m[4], Expr: ex, Line: l.no})
 		case "noexit", "invariant", "bind":
 			if bm := bindCallRe.FindStringSubmatch(t); bm != nil {
 				if cur.BindCalls == nil {
